@@ -316,7 +316,7 @@ def _handle_exception(exception, method, *excepted_errors):
 
 
 def _write_init(method, excepted_error, proxy_parameters=None, exception=None):
-    if not exception:
+    if exception is None:
         if proxy_parameters:
             parameters = []
             for key, value in proxy_parameters.items():
